@@ -143,6 +143,7 @@ class R(object):
         return bool(cond)
 
     def eq(self, got, want, sub, sig=None, rtol=RTOL, atol=0.0, **detail):
+        rtol = max(rtol, getattr(self, 'rtol_floor', 0.0))      # a case whose inputs are single-precision numbers
         ok = False
         try:
             ok = close(got, want, rtol, atol)
